@@ -200,15 +200,15 @@ UNITS += [range_parts, read_body_loop]
 # ---- HttpMessage::readBody: one turn of the OUTER loop (peer may close at any point)
 read_body_outer = Unit(
     'HttpMessage_readBody_outer', 'C09',
-    cuts=[Cut('ro', HC, r'^\twhile \(!end\)\s*$',
+    cuts=[Cut('ro', HC, r'^\twhile \([^\n]*\)\s*(?=\n\t\{\s*\n\t\tint av = _socket->available\(\);)',   # the outer loop, located by its first statement
               rules=[(r'_socket->available\(\)', 'SOCK_AVAILABLE()', None), (r'_socket->waitInput\(10\)', 'SOCK_WAIT()', 1),
-                     (r'byte buffer\[RECV_BLOCK_SIZE\];', '', 1), (r'String chunkSize = _socket->readLine\(\);', 'g_progress = 1; /* a chunk-size line was consumed (or the peer closed: readLine returns \"\") */', 1),
+                     (r'byte buffer\[RECV_BLOCK_SIZE\];', '', 1), (r'String chunkSize = _socket->readLine\(\);', 'g_progress = 1; g_sizeline = 1; /* a chunk-size line was consumed (or the peer closed: readLine returns \"\") */', 1),
                      (r'chunkSize\.hexToInt\(\)', 'nondet_int()', 1),
                      (r'while \(maxToRead > 0\) \{(?:.|\n)*?\n\t\t\}\n', 'if (maxToRead > 0) { INNER_LOOP(); if (g_returned) return; }\n', 1),
-                     (r'_socket->read\(buffer, 2\) < 2', '(g_progress = 1, nondet_bool())', 1),
+                     (r'_socket->read\(buffer, 2\) < 2', '(g_progress = 1, g_crlf = 1, nondet_bool())', 1),
                      (r'\bbreak;', '{ g_exit = 1; return; }', None)])],
     text=PRE + r'''
-int g_eof, g_progress, g_exit, g_returned, g_end;
+int g_eof, g_progress, g_exit, g_returned, g_end, g_sizeline, g_crlf;
 /* socket contract at the level this loop sees: after the peer closed, available() is 0 and waitInput() reports readable (end of stream);
    otherwise available() is the number of bytes pending (0 = nothing yet, waitInput may time out) */
 static int SOCK_AVAILABLE(void) { if (g_eof) return 0; int n = nondet_int(); __CPROVER_assume(-1 <= n && n <= 1000000); return n; }
@@ -216,10 +216,13 @@ static bool SOCK_WAIT(void) { if (g_eof) return true; return nondet_bool(); }
 /* the inner read loop (unit HttpMessage_readBody_loop): delivers >= 1 byte per turn or returns from readBody */
 static void INNER_LOOP(void) { if (nondet_bool()) g_returned = 1; else g_progress = 1; }
 void readBody_outer_turn(bool chunked)
-__CPROVER_requires(g_progress == 0 && g_exit == 0 && g_returned == 0 && (g_eof == 0 || g_eof == 1))
+__CPROVER_requires(g_progress == 0 && g_exit == 0 && g_returned == 0 && g_sizeline == 0 && g_crlf == 0 && (g_eof == 0 || g_eof == 1))
 /* every turn of the outer loop leaves the loop, returns, ends the body, or consumed input: a peer that closes in the middle of a body cannot make it spin */
 __CPROVER_ensures(g_exit || g_returned || g_end || g_progress)
-__CPROVER_assigns(g_progress, g_exit, g_returned, g_end)
+/* chunk framing: a turn that consumed a chunk-size line also consumes the CRLF that closes that chunk - the last, empty chunk included - unless the socket failed while
+   reading the chunk data; so nothing of this message is left in a kept-alive connection for the next request to trip over */
+__CPROVER_ensures((g_sizeline && !g_returned) ==> g_crlf)
+__CPROVER_assigns(g_progress, g_exit, g_returned, g_end, g_sizeline, g_crlf)
 {
   bool end = false; int size = nondet_int(), currentsize = 0;
   @@ro@@
@@ -228,7 +231,8 @@ __CPROVER_assigns(g_progress, g_exit, g_returned, g_end)
 void vf_harness(void) { bool c; readBody_outer_turn(c); VF_CANARY(); }
 ''',
     entry='readBody_outer_turn',
-    desc='HttpMessage::readBody outer loop, one turn, Content-Length or chunked, peer closed or not: the turn exits, ends the body or consumes input (no busy loop after the peer closes mid-body)',
+    desc='HttpMessage::readBody outer loop, one turn, Content-Length or chunked, peer closed or not: the turn exits, ends the body or consumes input (no busy loop after the peer closes mid-body); '
+         'every chunk-size line read is followed by reading the CRLF that ends that chunk (also the terminating empty chunk)',
     functions=['HttpMessage::readBody (outer loop)'],
     trusted=['Socket::available / waitInput at end of stream: 0 and true (the criterion Socket_::disconnected() itself uses)'],
 )
